@@ -215,7 +215,25 @@ def pmap(func, items, workers, init=None, chunksize=1):
         return
 
     ctx = mp.get_context('fork')
-    with ctx.Pool(min(workers, len(items)), initializer=init) as pool:
+    counter = ctx.Value('i', 0)
+    cpus    = sorted(os.sched_getaffinity(0))
+
+    def _init():
+        # one core per worker: the controlled threads of engine B hand the
+        # baton to each other hundreds of times per execution, which is
+        # several times cheaper when both ends run on the same core
+        if os.environ.get('RPMC_PIN', '1') == '1':
+            with counter.get_lock():
+                k = counter.value
+                counter.value += 1
+            try:
+                os.sched_setaffinity(0, {cpus[k % len(cpus)]})
+            except OSError:
+                pass
+        if init:
+            init()
+
+    with ctx.Pool(min(workers, len(items)), initializer=_init) as pool:
         for res in pool.imap(func, items, chunksize):
             yield res
 
